@@ -727,9 +727,15 @@ func (s *BgpServer) filterpath(peer *peer, path, old *table.Path) *table.Path {
 	// When 'path' is filtered (path == nil), check 'old' has been sent to this peer.
 	// If it has, send withdrawal to the peer.
 	if path == nil && old != nil {
-		o := peer.policy.ApplyPolicy(peer.TableID(), table.POLICY_DIRECTION_EXPORT, old, options)
-		if o != nil {
-			path = old.Clone(true)
+		// Evaluate 'old' as it was evaluated when it was advertised: after the same
+		// per-peer eligibility checks and attribute rewriting (AS prepend, next hop).
+		// Applying the policy to the raw RIB path makes AS_PATH / next-hop conditions
+		// answer differently and leaves a stale route at the peer.
+		if o, oopts, stop := s.prePolicyFilterpath(peer, old, nil); !stop {
+			oopts.Validate = s.roaTable.Validate
+			if peer.policy.ApplyPolicy(peer.TableID(), table.POLICY_DIRECTION_EXPORT, o, oopts) != nil {
+				path = old.Clone(true)
+			}
 		}
 	}
 
